@@ -1,1 +1,18 @@
-fn main() {}
+mod c01;
+mod c02;
+mod c03;
+mod c09;
+mod kernels;
+fn main() {
+    let ctx = vcore::Ctx::from_args();
+    match ctx.prop.as_str() {
+        "C01" => c01::run(&ctx),
+        "C02" => c02::run(&ctx),
+        "C03" => c03::run(&ctx),
+        "C09" => c09::run(&ctx),
+        other => {
+            eprintln!("MACHINERY: vk-compute does not serve property {other:?}");
+            std::process::exit(2)
+        }
+    }
+}
